@@ -63,7 +63,10 @@ META = {
         "insertion/deletion/replacement/duplication/truncation with grammar tokens, quotes, backslashes, brackets, "
         "non-ASCII digits/letters/combining marks, NUL, lone surrogates; (b) token soups drawn from the lexer's own "
         "token kinds (all punctuation spellings, identifier/literal samples), free or embedded in a generic op / after a "
-        "registered custom-syntax op name / inside a dialect or builtin attribute or type; a deterministic sweep of every "
+        "registered custom-syntax op name / inside a dialect or builtin attribute or type; an SSA-reference family (operand uses rewritten to %x#k for k in {0, 1, arity-1, arity, "
+        "arity+1, huge} where arity comes from the definition %x:n, also %x:0, %x#, %x#-1, %x#0x1, undefined and forward-referenced "
+        "names with indices, changed result counts; applied to corpus chunks and, as a deterministic sweep, to every registered "
+        "custom-syntax op name in small operand templates); a deterministic sweep of every "
         "registered custom-syntax op name and attribute/type name through small templates; (c) short random strings over "
         "a lexer-focused alphabet (lexer correspondence only); (d) growth families at doubling sizes. Non-trivial = the "
         "text is not a verbatim corpus chunk and lexes to >= 5 tokens (or ends in a lexer error after >= 2 tokens); "
@@ -78,7 +81,7 @@ META = {
         "CPython's re engine matches the repaired (deterministic) token regexes in time linear in the match length; measured, not proved",
         "text = sequence of Unicode scalar values; lone surrogates excluded",
     ],
-    "budget": {"quick": 80, "thorough": 1100},
+    "budget": {"quick": 72, "thorough": 1100},
     "hard_timeout": {"quick": 1500, "thorough": 7200},
 }
 
@@ -119,6 +122,12 @@ def preload() -> None:
     attrs = sorted(a.name for a in c.loaded_attrs if not issubclass(a, TypeAttribute))
     types = sorted(a.name for a in c.loaded_types)
     _NAMES.update(ops=ops, custom_ops=custom, attrs=attrs, types=types)
+    # keep the collector of forked children away from the (large, shared) preloaded heap: copy-on-write faults
+    # of a first full collection cost seconds of system time per child on a loaded machine
+    import gc
+
+    gc.collect()
+    gc.freeze()
 
 
 def _xdsl_root() -> str:
@@ -537,6 +546,8 @@ def gen_soup_case(rng, samples) -> tuple[str, str, str]:
     if k < 0.65:
         name = rng.choice(_NAMES["custom_ops"])
         res = rng.choice(["", "", "%r = ", "%r, %s = ", "%r:2 = "])
+        if rng.random() < 0.3:
+            return "ssa.soup", "module", SSA_PRELUDE + res + name + " " + soup(rng, samples, n, OP_BIAS + SSA_OPERANDS * 2) + SSA_TAIL
         return "soup.custom_op", "module", PRELUDE + res + name + " " + soup(rng, samples, n, OP_BIAS)
     if k < 0.80:
         pool = _NAMES["attrs"] if rng.random() < 0.5 else _NAMES["types"]
@@ -559,10 +570,96 @@ ATTR_TEMPLATES = ["{s}{n}", "{s}{n}<", "{s}{n}<>", "{s}{n}<0>", "{s}{n}<i32>", '
                   "{s}{n}<x = 1>", "{s}{n}<0 : i32>", "{s}{n}<true>", "{s}{n}<()>", "{s}{n}<<>>", '{s}{n}<"">', "{s}{n}<4xi32>"]
 
 
+# ---- SSA-reference family: indexed operand uses `%x#k`, result counts `%x:n`, undefined / forward names --------
+SSA_PRELUDE = (PRELUDE + '%t:2 = "test.op"() : () -> (i32, i32)\n%z:0 = "test.op"() : () -> ()\n'
+               '%c = "test.op"() : () -> i1\n%i:3 = "test.op"() : () -> (index, index, index)\n')
+# operand spellings: index == arity first (one past the last value), then the other boundary values
+SSA_OPERANDS = ["%t#2", "%0#1", "%z", "%i#3", "%c#1", "%t#1", "%t#0", "%t#3", "%z#0", "%t#99999999999999999999", "%t#", "%t#-1",
+                "%t#0x1", "%t:0", "%t:2", "%undefined", "%undefined#0", "%undefined#1", "%fwd#1", "%t#2#2", "%0#0"]
+SSA_OP_TEMPLATES = ["{n} {a}", "{n} {a}, {a} : i32", "%r = {n} {a} : i32", "{n} %0, {a} : i32", "{n} {a}[{a}] : memref<4xf32>",
+                    "{n}({a}) : (i32) -> ()", "{n} ({a} : i32)", "%r = {n} {a}, %1 : index", '{n} "s", {a} : i32',
+                    "{n} %w = {a} to {a} step {a} {{", "{n} @f({a}) : (i32) -> ()", "{n} {a} {{\n}}"]
+SSA_TAIL = '\n%fwd:2 = "test.op"() : () -> (i32, i32)\n'
+_DEF_RE = re.compile(r"^[ \t]*((?:%[\w$.-]+(?::\d+)?[ \t]*,[ \t]*)*%[\w$.-]+(?::\d+)?)[ \t]*=", re.M)
+_REF_RE = re.compile(r"%[A-Za-z0-9_$.-]+")
+
+
+def ssa_arities(text: str) -> dict[str, int]:
+    """arity of every result definition `%a, %b:n = ...` (block / function arguments: 1)"""
+    ar: dict[str, int] = {}
+    for m in _DEF_RE.finditer(text):
+        for part in m.group(1).split(","):
+            part = part.strip()
+            name, _, cnt = part.partition(":")
+            try:
+                ar[name] = int(cnt) if cnt else 1
+            except ValueError:
+                ar[name] = 1
+    return ar
+
+
+def ssa_mutate(rng, text: str, focus_count: bool = False) -> str:
+    """rewrite 1-3 SSA references: `%x` -> `%x#k` (k around the arity of the definition), `%x:0`, `%x#`, `%x#-1`,
+    `%x#0x1`, undefined or forward-referenced names with an index, or change the arity of a definition"""
+    ar = ssa_arities(text)
+    for _ in range(1 if focus_count else rng.choice([1, 1, 2, 3])):
+        refs = list(_REF_RE.finditer(text))
+        if not refs:
+            return text + " %undefined#1"
+        m = rng.choice(refs)
+        name = m.group(0)
+        count = ar.get(name, 1)
+        end = m.end()
+        # swallow an existing `#k` / `:n` suffix half of the time
+        sfx = re.match(r"[#:]\d+", text[end:])
+        if sfx and (focus_count or rng.random() < 0.5):
+            end += sfx.end()
+        k = rng.random()
+        if focus_count or k < 0.35:
+            new = f"{name}#{count}"
+        elif k < 0.60:
+            new = f"{name}#{rng.choice([0, 1, max(count - 1, 0), count + 1, 2, 7, 4294967296, 10 ** 30])}"
+        elif k < 0.72:
+            new = name + rng.choice([":0", "#", "#-1", "#0x1", ":2", "#1#1", "# 1", "#01", ":" + str(count), "#x"])
+        elif k < 0.82:
+            new = rng.choice(["%undefined", "%undefined_q", "%" + name[1:] + "_"]) + rng.choice(["", "#0", "#1", "#2"])
+        elif k < 0.90:
+            later = [r.group(0) for r in refs if r.start() > m.start() and r.group(0) != name]
+            new = (rng.choice(later) if later else "%fwd") + rng.choice(["", "#0", "#1", f"#{count}"])
+        else:
+            # change the arity of a definition: `%x = ` -> `%x:0 = ` / `%x:2 = `
+            defs = list(_DEF_RE.finditer(text))
+            if defs:
+                d = rng.choice(defs)
+                first = re.match(r"[ \t]*%[\w$.-]+(?::\d+)?", d.group(0))
+                stem = first.group(0).split(":")[0]
+                text = text[:d.start()] + stem + rng.choice([":0", ":2", ":1", ":3"]) + text[d.start() + first.end():]
+                continue
+            new = f"{name}#{count}"
+        text = text[:m.start()] + new + text[end:]
+    return text
+
+
+def ssa_sweep_cases(rng, quick: bool):
+    """deterministic: every registered custom-syntax op name with indexed operands in small templates.  The
+    `index == arity` spellings come first; quick takes `%t#2` in the bare template (always run to the end) and
+    `%0#1` plus a seeded third spelling in a seeded second template; thorough takes every template with the first five spellings and
+    the first template with all spellings."""
+    if quick:
+        operands = SSA_OPERANDS[:2] + [rng.choice(SSA_OPERANDS[2:])]
+        templates = [SSA_OP_TEMPLATES[0], rng.choice(SSA_OP_TEMPLATES[1:])]
+        combos = [(templates[0], operands[0]), (templates[1], operands[1]), (templates[1], operands[2])]
+    else:
+        combos = [(t, a) for t in SSA_OP_TEMPLATES for a in SSA_OPERANDS[:5]] + [(SSA_OP_TEMPLATES[0], a) for a in SSA_OPERANDS[5:]]
+    for t, a in combos:
+        for name in _NAMES["custom_ops"]:
+            yield "ssa.sweep", "module", SSA_PRELUDE + t.format(n=name, a=a) + SSA_TAIL
+
+
 def sweep_cases(rng, quick: bool):
     """deterministic sweep: every registered custom-syntax op name and every attribute / type name in a few
     small templates (all templates in thorough, a seeded selection of them in quick)"""
-    ots = rng.sample(OP_TEMPLATES, 4) if quick else OP_TEMPLATES
+    ots = rng.sample(OP_TEMPLATES, 3) if quick else OP_TEMPLATES
     for name in _NAMES["custom_ops"]:
         for t in ots:
             yield "sweep.op", "module", PRELUDE + t.format(n=name)
@@ -682,6 +779,14 @@ class Explorer:
             self.slow += 1
         self.seen[key] = self.seen.get(key, 0) + 1
         if self.seen[key] > 1:
+            return
+        if key in self.known and ctx.tier == "quick":
+            # listed known finding: reported as KNOWN-FINDING whatever the input looks like; neither shrinking
+            # nor the fresh-process confirmation (about a second each on a loaded machine) is spent on it
+            ctx.fail(key[0], key[1], {"stream": stream, "entry": entry, "allow_unregistered": allow, "text": text[:400]},
+                     f"{entry} parse ended with {res['out']} ({res.get('cls')}): {res.get('msg', '')}",
+                     {"outcome": res["out"], "exception": res.get("cls"), "raised_in": res.get("site")},
+                     "IR, ParseError or a DiagnosticException within the CPU budget")
             return
         small = text
         if ctx.time_left() > 15:
@@ -1028,6 +1133,20 @@ def run(ctx: core.Ctx) -> None:
         for c in rng.sample(chunks, 40 if quick else len(chunks)):
             ex.parse("corpus.verbatim", "module", True, c, seed_text=c)
 
+        # (0b) SSA-reference family, deterministic part: indexed operands in every custom-syntax op (before the
+        # time-boxed stages, so that a loaded machine does not cut it), then corpus chunks with one operand use
+        # rewritten to `%x#<arity of its definition>`
+        small = [c for c in chunks if len(c) <= 2500]
+        for i, (stream, entry, text) in enumerate(ssa_sweep_cases(rng, quick)):
+            ex.parse(stream, entry, i % 2 == 0, text)
+            # the first combination (`<op> %t#2`, index == arity, every op) always runs to the end
+            if ex.slow >= 4 or (i >= len(_NAMES["custom_ops"]) and ctx.time_left() < 25):
+                ctx.count("ssa.sweep_cut_short")
+                break
+        for i, c in enumerate(rng.sample(small, 150 if quick else len(small))):
+            for _ in range(1 if quick else 4):
+                ex.parse("ssa.corpus_index_eq_arity", "module", i % 2 == 0, ssa_mutate(rng, c, True), seed_text=c)
+
         # (1) growth families: small sizes first, so that an exponential matcher is caught by ratio, not by a hang
         fam_budget = ctx.budget_s * (0.22 if quick else 0.25)
         t_f = time.time()
@@ -1043,7 +1162,7 @@ def run(ctx: core.Ctx) -> None:
             run_family(ex, name, 4096 if quick else 262144, 60_000 if quick else 1_500_000, 0.6 if quick else 1.5)
 
         # (2) short random strings: lexer correspondence only
-        n_lex = 2500 if quick else 60000
+        n_lex = 2000 if quick else 60000
         for _ in range(n_lex):
             ex.lex("random", "".join(rng.choice(LEX_ALPHA) for _ in range(rng.randint(0, 14))))
             if ex.slow >= 4:
@@ -1063,8 +1182,12 @@ def run(ctx: core.Ctx) -> None:
             allow = it % 2 == 0
             if it % 5 in (0, 1, 2):
                 seed = rng.choice(small if rng.random() < 0.85 else chunks)
-                text = mutate(rng, seed)
-                ex.parse("mutation", "module", allow, text, seed_text=seed)
+                if it % 15 in (0, 1, 5, 6):
+                    text = ssa_mutate(rng, seed if it % 15 in (0, 5) else mutate(rng, seed))
+                    stream = "ssa.mutation"
+                else:
+                    text, stream = mutate(rng, seed), "mutation"
+                ex.parse(stream, "module", allow, text, seed_text=seed)
                 if it % 3 == 0:
                     ex.lex("mutation", text)
             else:
